@@ -33,7 +33,13 @@ Definition gen_fn_thresh (f : string) (higher_is_more_similar : bool) (cl cr : e
 Definition gen_absdiff (cl cr : expr) (t : val) : expr :=
   ECmp CLe (EAbs (EArith Sub cl cr)) (ELit t).
 
+(* (1.0 * ABS(l - r) / (CASE WHEN r > l THEN r ELSE l END)) < t : the factor 1.0 makes the division a real division on
+   every backend, also for INTEGER columns (splink 89a1dbc7) *)
 Definition gen_pctdiff (cl cr : expr) (t : val) : expr :=
+  ECmp CLt (EParen (EArith Div (EArith Mul (ELit (VNum 1)) (EAbs (EArith Sub cl cr)))
+                               (EParen (ECase [(ECmp CGt cr cl, cr)] cl)))) (ELit t).
+(* the term emitted before 89a1dbc7 (no factor): integer division on SQLite for INTEGER columns *)
+Definition gen_pctdiff_old (cl cr : expr) (t : val) : expr :=
   ECmp CLt (EArith Div (EAbs (EArith Sub cl cr)) (EParen (ECase [(ECmp CGt cr cl, cr)] cl))) (ELit t).
 
 (* abs(epoch(l) - epoch(r)) <= seconds;  epochf = "epoch" (DuckDB) / "unix_timestamp" (Spark) *)
